@@ -17,3 +17,52 @@ Proof. intros p t bs H1 H2. destruct (retained_char p t bs H1 H2) as [_ [_ [_ [_
 
 Print Assumptions C17_lookups_defined_on_structured_programs.
 Print Assumptions C17_no_dangling_blocks.
+
+(* ------------------------------------------------------------------------------------------------------------
+   Extension (second round): TOTALITY of the analyses and the path search (Lemmas/Total*.v) *)
+From Coq Require Import List String NArith ZArith Bool Arith.
+From Tealer Require Import Tables Leaves LeafPrelude Syntax Parse Cfg StackAst Keys Analysis Domains Detect TotalSolver TotalDomains TotalSearch TotalParse TotalLemmas.
+
+(* For every source text that parses into a structured program without a retsub in main: the four analyses and every
+   detector's search never raise (no KeyError / assertion: `not_exn`), terminate with a result as soon as the fuel
+   reaches an explicit, computable bound (finite-height argument per domain; mixed-radix measure for the DFS), and the
+   result does not depend on the fuel beyond that bound.  Loops, recursion, dead code that branches or calls, a branch
+   or call as the last instruction are all inside the quantifier. *)
+Theorem C17_total :
+  forall (src : string) (p : list ins) (t : teal),
+       parse_program src = Ok p ->
+       parse_teal p = Ok t ->
+       GraphWf.struct_ok t ->
+       main_no_retsub_b t = true ->
+       let f := whole_function t in
+       (forall fuel : nat, not_exn (run_all f fuel)) /\
+       (forall (fuel : nat) (r : fn_result) (name : string) (checks : bctx -> bool), not_exn (run_detector f r fuel name checks)) /\
+       (forall fuel : nat, run_all_bound f <= fuel -> exists r : fn_result, run_all f fuel = Done r) /\
+       (forall (fuel : nat) (r : fn_result) (name : string) (checks : bctx -> bool),
+        search_bound f <= fuel -> exists ps : list (list nat), run_detector f r fuel name checks = Done ps) /\
+       (forall (fuel fuel' : nat) (r : fn_result), run_all f fuel = Done r -> fuel <= fuel' -> run_all f fuel' = Done r) /\
+       (forall (fuel fuel' : nat) (r : fn_result) (name : string) (checks : bctx -> bool) (ps : list (list nat)),
+        run_detector f r fuel name checks = Done ps -> fuel <= fuel' -> run_detector f r fuel' name checks = Done ps).
+Proof. exact @C17_total_src. Qed.
+
+(* every instruction the line parser produces has a stack arity in the regenerated table (no lookup of the emulation fails) *)
+Theorem C17_parsed_instructions_have_arity :
+  forall (src : string) (p : list ins), parse_program src = Ok p -> forall i : ins, In i p -> arity_def (i_op i) = true.
+Proof. exact @parse_program_arity. Qed.
+
+(* the hypothesis "no retsub in main" is needed: `int 1; retsub` makes the model (and tealer: finding D15, an invalid
+   program -- retsub with an empty call stack fails in the AVM) raise *)
+Theorem C17_retsub_in_main_refuted :
+  exists (p : prog) (t : teal),
+         parse_teal p = Ok t /\
+         GraphWf.struct_ok t /\
+         ExecLemmas.graph_ok (whole_function t) /\
+         arity_okb p = true /\
+         main_no_retsub_b t = false /\
+         run_all (whole_function t) 100 = Exn "exception in block/path level constraints" /\
+         detect_paths (whole_function t) (fun _ : nat => false) (fun _ : list nat => true) 100 = Exn "AssertionError: callsub_block is None".
+Proof. exact @no_exn_under_graph_ok_refuted. Qed.
+
+Print Assumptions C17_total.
+Print Assumptions C17_parsed_instructions_have_arity.
+Print Assumptions C17_retsub_in_main_refuted.
